@@ -377,7 +377,11 @@ func sortInputs(r *rand.Rand, thorough bool) [][]int {
 		out = append(out, s)
 	}
 	// adversarial inputs that exhaust quicksort's depth budget (heapsort fallback)
-	for _, n := range []int{300, 600} {
+	advSizes := []int{300, 600}
+	for n := 37; n <= 130; n++ { // many sizes: the parity and the contents of the range handed to heapSort differ from size to size
+		advSizes = append(advSizes, n)
+	}
+	for _, n := range advSizes {
 		if in, reached := sortAdversary(n); reached {
 			out = append(out, in)
 			rev := make([]int, n)
@@ -446,6 +450,38 @@ func driveC17(c *Ctx) {
 		w := set.Begin(sKey(hist), tr.E{"input": map[string]interface{}{"hist": hist}})
 		runHistoryS(w, hist)
 	}
+	// lopsided operands: one set with 60..200 elements, one with 1..6 (size-dependent paths of the binary functions), both argument orders
+	nlop := 120
+	if c.Thorough() {
+		nlop = 1200
+	}
+	for i := 0; i < nlop; i++ {
+		span := 100 + r.Intn(300)
+		big := map[int]bool{}
+		for len(big) < 60+r.Intn(141) && len(big) < span {
+			big[r.Intn(span)-span/4] = true
+		}
+		var bs, ss []int
+		for v := range big {
+			bs = append(bs, v)
+		}
+		sort.Ints(bs)
+		for k := 0; k < 1+r.Intn(6); k++ {
+			if r.Intn(2) == 0 {
+				ss = append(ss, bs[r.Intn(len(bs))]) // a member
+			} else {
+				ss = append(ss, r.Intn(span)-span/4) // any value, often a non-member next to members
+			}
+		}
+		hist := []SAct{{Op: "New", H: 1, Xs: bs, Z: i % 2}, {Op: "New", H: 2, Xs: ss, Z: (i / 2) % 2}}
+		for _, f := range []string{"Union", "Intersection", "SetMinus", "XOR", "IntersectionSize", "ContainsSorted"} {
+			hist = append(hist, SAct{Op: f, H: 1, H2: 2}, SAct{Op: f, H: 2, H2: 1})
+		}
+		hist = append(hist, SAct{Op: "UnionM", H: 2, H2: 1})
+		w := set.Begin(sKey(hist), tr.E{"input": map[string]interface{}{"hist": hist}})
+		runHistoryS(w, hist)
+	}
+	meta["B_lopsided_histories"] = nlop
 	meta["B_histories"] = nh
 	meta["B_nontrivial"] = nontrivial
 	// Range: the whole grid, one call per segment
